@@ -97,10 +97,14 @@ class AvroWriter:
             v = rec.get(f["name"])
             ts = f["type"] if isinstance(f["type"], list) else [f["type"]]
             if isinstance(v, tuple) and len(v) == 2 and isinstance(v[0], str):
-                # fastavro "tuple notation" (branch name, value): the named union branch is used as it is, the value is NOT validated against it
-                if not any((t.get("type") if isinstance(t, dict) else t) == v[0] for t in ts):
+                # fastavro "tuple notation" (branch name, value): the named union branch is used as it is; without a validator the value is NOT checked against it
+                named = [t for t in ts if (t.get("type") if isinstance(t, dict) else t) == v[0]]
+                if not named:
                     self._tear(k)
                     raise PyRaise(ValueError(f"no union branch named {v[0]!r} for field {f['name']!r}"))
+                if self.validator and not avro_accepts(it, named[0], v[1]):
+                    # (only a validating writer checks the value against the branch that the tuple names)
+                    raise PyRaise(ValueError(f"{it.type_name(v[1])} value of field {f['name']!r} is not an example of the schema {named[0]!r}"))
                 rec[f["name"]] = v[1]
                 continue
             if not any(avro_accepts(it, t, v) for t in ts):
